@@ -377,6 +377,9 @@ func (g *c16Gen) document(t *c16Type, strict bool, plan *c16Plan) *doc.Node {
 		if g.r.IntN(8) == 0 && !m.Has("") {
 			k = ""
 		}
+		if t.Inline != "" && g.r.IntN(5) == 0 && !m.Has("rest") {
+			k = "rest" // spelled like the lower-cased Go name of the inline field: an ordinary leftover key all the same
+		}
 		m.Map = append(m.Map, doc.P(k, g.anyValue(1)))
 	}
 	// keys for an inline struct
